@@ -29,7 +29,7 @@ CRATES = ['astria-sequencer', 'astria-core', 'astria-core-address']
 
 
 def engine(extra_hooks=None, **kw):
-    ex = loader.load(CRATES, scalar_types=SCALARS, dep_adts=['tendermint'], max_steps=3_000_000, **kw)
+    ex = loader.load(CRATES, scalar_types=SCALARS, dep_adts=['tendermint', 'ibc-types-core-channel'], max_steps=3_000_000, **kw)
     w = World(ex)
     ex.hooks = w.hooks(extra_hooks)
     return ex, w
